@@ -76,6 +76,18 @@ def build_corpus(tier):
     rej("%s = %s;" % (T("int*"), T("int*", other)), "tainted<int*> assigned another sandbox type's tainted")
     rej("%s = %s;" % (T("int"), T("int", other)), "tainted<int> assigned another sandbox type's tainted")
     rej("%s = %s;" % (T("int"), "vb_lv<tainted<int, rlbox_noop_sandbox>>()"), "tainted<int> assigned a noop-sandbox tainted")
+    # ---- wrappers of another sandbox type into tainted_volatile (sandbox memory)
+    for t_ in (["int*", "int"] if tier == "quick" else ["int*", "int", "void*", "long", "const char*"]):
+        rej("%s = %s;" % (V(t_), T(t_, other)), "tainted_volatile<%s> assigned another sandbox type's tainted" % t_, group="foreign-store")
+        rej("%s = %s;" % (V(t_), V(t_, other)), "tainted_volatile<%s> assigned another sandbox type's tainted_volatile" % t_, group="foreign-store")
+        rej("*%s = %s;" % (T(t_ + "*"), T(t_, other)), "*tainted<%s*> assigned another sandbox type's tainted" % t_, group="foreign-store")
+        rej("%s[1] = %s;" % (T(t_ + "*"), V(t_, other)), "tainted<%s*>[1] assigned another sandbox type's tainted_volatile" % t_, group="foreign-store")
+    rej("%s = %s;" % (V("int (*)(int)"), T("int (*)(int)", other)), "tainted_volatile<fnptr> assigned another sandbox type's tainted function pointer", group="foreign-store")
+    rej("%s = vb_lv<sandbox_callback<int (*)(int), %s>>();" % (V("int (*)(int)"), other), "tainted_volatile<fnptr> assigned another sandbox type's callback", group="foreign-store")
+    rej("%s = vb_lv<tainted<int, rlbox_noop_sandbox>>();" % V("int"), "tainted_volatile<int> assigned a noop-sandbox tainted", group="foreign-store")
+    rej("%s = %s;" % (V("VbW"), T("VbW", other)), "tainted_volatile<struct> assigned another sandbox type's tainted struct", group="foreign-store")
+    rej("%s = %s;" % (T("int"), V("int", other)), "tainted<int> assigned another sandbox type's tainted_volatile", group="foreign-store")
+    rej("tainted<int*, %s> t = %s; (void)t;" % (Mn, V("int*", other)), "tainted<int*> initialised from another sandbox type's tainted_volatile", group="foreign-store")
     # ---- call arguments
     inv = lambda f, args: "%s.invoke_sandbox_function(%s%s);" % (S, f, (", " + args) if args else "")
     rej(inv("vb_takes_ptr", "vb_gp"), "invoke with a raw pointer argument")
